@@ -1561,6 +1561,65 @@ Section TableProofs.
       destruct (hadd_grow_ok s (k, v) bud nl I) as [s2 E2]; try lia; auto. congruence.
   Qed.
 
+  (* ---- last round: the copy constructor and the overload fallback do not throw on reachable states ---- *)
+  Lemma add_all_some : forall its t, TInv t -> NoDup (K (its ++ tall t)) ->
+    Z.of_nat (length its + length (tall t)) <= cap * bcount t -> exists t', add_all its t = Some t'.
+  Proof.
+    induction its as [|kv rest IH]; intros t It ND Hlen; simpl; [eauto|].
+    destruct (tadd_some t kv It) as [t1 E].
+    { apply table_has_room; auto. simpl in Hlen. lia. }
+    rewrite E.
+    assert (Hnew : ~ In (fst kv) (map fst (tall t))).
+    { unfold K in ND. simpl in ND. inversion ND as [|? ? Hn _]; subst. intro Hin. apply Hn. rewrite map_app. apply in_or_app; auto. }
+    destruct (tadd_inv t kv t1 It Hnew E) as [I1 [L1 P1]].
+    apply IH; auto.
+    - eapply NoDup_keys_perm; [|exact ND]. simpl. rewrite P1. apply Permutation_middle.
+    - unfold HashModel.bcount in *. rewrite L1. rewrite (Permutation_length P1). simpl in *. lia.
+  Qed.
+
+  Lemma copy_log_some n : n <= calcCapacity (2 ^ maxLog) -> forall fuel l0, l0 <= maxLog -> maxLog - l0 <= Z.of_nat fuel ->
+    exists l, copy_log calcCapacity fuel l0 n = Some l /\ l0 <= l <= maxLog /\ n <= calcCapacity (2 ^ l).
+  Proof.
+    intros Hn. induction fuel; intros l0 H0 Hf; simpl; destruct (Z.leb_spec n (calcCapacity (2 ^ l0))) as [L|L].
+    - exists l0. split; auto. split; [lia|auto].
+    - assert (l0 = maxLog) by lia. subst. lia.
+    - exists l0. split; auto. split; [lia|auto].
+    - assert (l0 <> maxLog) by (intro; subst; lia). destruct (IHfuel (l0 + 1)) as [l [E [R1 R2]]]; try lia. exists l. split; auto. split; [lia|auto].
+  Qed.
+
+  (* HashSet(const HashSet&): with the contents fitting the largest admissible table (otherwise the real constructor throws length_error too)
+     the size search ends within its 64 doublings at a size <= maxLog, and the pvAddNogrow of every item into the fresh table never
+     reports "Hash table is full" (count <= CalcCapacity(bucketCount) <= maxCount * bucketCount, probing covers the table) *)
+  Theorem hcopy_never_none s : Inv s -> logStart <= maxLog -> maxLog - logStart <= 64 -> count s <= calcCapacity (2 ^ maxLog) ->
+    exists s', hcopy s = Some s'.
+  Proof.
+    intros Is Hls Hfu Hfit. unfold HashModel.hcopy. destruct (Z.eqb_spec (count s) 0) as [E0|E0]; [eauto|].
+    destruct (copy_log_some (count s) Hfit 64%nat logStart Hls ltac:(simpl; lia)) as [l [El [Rl Cl]]]. rewrite El.
+    destruct (Z.ltb_spec maxLog l); [lia|].
+    assert (It0 : TInv (newTable l)) by (apply newTable_inv; lia).
+    assert (ND : NoDup (K (traverse B s ++ tall (newTable l)))).
+    { rewrite tall_newTable, app_nil_r. eapply NoDup_keys_perm; [apply Permutation_sym, traverse_perm|apply Is]. }
+    destruct (add_all_some (traverse B s) (newTable l) It0 ND) as [t Ea].
+    - rewrite tall_newTable. simpl. rewrite Nat.add_0_r. rewrite (Permutation_length (traverse_perm s)). rewrite <- (inv_count _ Is).
+      unfold HashModel.bcount, HashModel.newTable. simpl. pose proof (calc_le l ltac:(lia)). lia.
+    - rewrite Ea. eauto.
+  Qed.
+
+  Theorem copy_never_throws s : Inv s -> logStart <= maxLog -> maxLog - logStart <= 64 -> count s <= calcCapacity (2 ^ maxLog) ->
+    snd (step s OCopy) = RUnit.
+  Proof. intros Is A C D. cbn [HashModel.step]. destruct (hcopy_never_none s Is A C D) as [s' E]. rewrite E. reflexivity. Qed.
+
+  (* overloadIfCannotGrow (the allocation of a bigger bucket array was refused): pvAddNogrow on the existing newest table succeeds whenever
+     that table has a free slot at all; without any bucket array the bad_alloc is rethrown (gens = [] is the one remaining None) *)
+  Theorem hadd_nomem_never_none s kv t r : Reach s -> gens s = t :: r -> Z.of_nat (length (tall t)) < cap * bcount t ->
+    exists s', hadd_nomem s kv = Some s'.
+  Proof.
+    intros [Is C] Eg Hroom. unfold HashModel.hadd_nomem. destruct (Z.ltb_spec (count s) (capacity s)) as [Hc|Hc].
+    - apply hadd_nogrow_never_full; [split; auto|exact Hc].
+    - rewrite Eg. pose proof (inv_t _ Is) as F. rewrite Eg in F. inversion F as [|? ? It _]; subst.
+      destruct (tadd_some t kv It (table_has_room t It Hroom)) as [t' E]. rewrite E. eauto.
+  Qed.
+
   Theorem reach_init : Reach (hinit B).
   Proof. split; [apply hinit_inv|exact I]. Qed.
 
@@ -1745,4 +1804,17 @@ Section PackagedFull.
     ~ (count s < capacity s) /\
     match reserve_log calcCapacity 64 (newLog B logStart shift (gens s)) (count s + 1) with Some nl => maxLog < nl | None => True end.
   Proof. destruct OK. intros. eapply insert_never_table_full; eauto. Qed.
+  Theorem copy_no_throw : forall s, Reach' s -> logStart <= maxLog -> maxLog - logStart <= 64 -> count s <= calcCapacity (2 ^ maxLog) ->
+    exists s', step' s OCopy = (s', RUnit).
+  Proof.
+    destruct OK. intros s [Is C] A D E.
+    assert (H : exists s', hcopy B b0 upd_bound h cap unlimited wf0 wfThr start next logStart calcCapacity maxLog s = Some s')
+      by (eapply hcopy_never_none; eauto).
+    destruct H as [s' H]. exists s'. cbn [step]. rewrite H. reflexivity.
+  Qed.
+
+  Theorem nomem_insert_no_throw : forall s kv t r, Reach' s -> gens s = t :: r ->
+    Z.of_nat (length (flat_map (@items B) (tbs t))) < cap * 2 ^ tlog t ->
+    exists s', hadd_nomem B b0 upd_bound h cap unlimited wf0 wfThr start next logStart calcCapacity shift maxLog s kv = Some s'.
+  Proof. destruct OK. intros s kv t r HR Eg Hroom. eapply hadd_nomem_never_none; eauto. Qed.
 End PackagedFull.
